@@ -206,7 +206,7 @@ fn run_episode(
             decisions: res.decisions.clone(),
         };
         if res.deadlock {
-            harness_error = Some("baton scheduler deadlock (no runnable client)".into());
+            harness_error = Some(format!("baton scheduler deadlock (no runnable client): {}", res.sched_state));
             executed.push(explicit);
             break;
         }
